@@ -118,7 +118,7 @@ def parse_coq(out):
     res = []
     for m in re.finditer(r"^\s+= (.*?)^\s+: ", out, flags=re.S | re.M):
         body = " ".join(m.group(1).split())
-        for mm in re.finditer(r"\((true|false), (true|false), \[(.*?)\]\)", body):
+        for mm in re.finditer(r"\(\s*(true|false),\s*(true|false),\s*\[(.*?)\]\s*\)", body):
             xs = []
             if mm.group(3).strip():
                 for it in mm.group(3).split(";"):
@@ -192,7 +192,7 @@ def main(c):
         return
     txt = ("From Coq Require Import QArith List.\nFrom C07 Require Import C07Model.\nImport ListNotations.\nOpen Scope Q_scope.\n" +
            "".join("Eval vm_compute in [\n%s].\n" % ";\n".join(cs.coq() for cs in cases[j:j + 200]) for j in range(0, len(cases), 200)))
-    rc, mout, err = c.coq_eval(["C07Model.v"], txt, timeout=900)
+    rc, mout, err = c.coq_eval(["C07Model.v"], txt, timeout=240)
     if rc != 0:
         c.report("model-run", "model evaluation failed: " + err[-600:], {"stderr": err[-3000:]}, False)
         return
